@@ -252,12 +252,13 @@ class Ctx:
             "wall_s": round(wall, 2),
             "violations": len(unknown),
         }
-        os.makedirs(os.path.join(ROOT, "evidence"), exist_ok=True)
-        tmp = os.path.join(ROOT, "evidence", ".%s.json.tmp" % self.pid)
+        evdir = os.environ.get("VERIF_EVIDENCE_DIR") or os.path.join(ROOT, "evidence")
+        os.makedirs(evdir, exist_ok=True)
+        tmp = os.path.join(evdir, ".%s.json.tmp" % self.pid)
         with open(tmp, "w") as f:
             json.dump(evd, f, indent=1, sort_keys=False)
             f.write("\n")
-        os.replace(tmp, os.path.join(ROOT, "evidence", "%s.json" % self.pid))
+        os.replace(tmp, os.path.join(evdir, "%s.json" % self.pid))
         for l in lines:
             print(l)
         print("%s tier=%s seed=%s evaluations=%d distinct_nontrivial=%d wall=%.1fs counters=%s" % (
